@@ -71,6 +71,7 @@ def plan(tier, seed):
     specs.append({"kind": "entries", "count": 3000 if tier == "quick" else 60000})
     specs.append({"kind": "lists", "count": 800 if tier == "quick" else 20000})
     specs.append({"kind": "systematic"})
+    specs.append({"kind": "named_extras"})
     specs.append({"kind": "after_activity", "count": 40 if tier == "quick" else 1500})
     for T in ([4] if tier == "quick" else [2, 4, 8, 16]):
         specs.append({"kind": "threads", "threads": T, "count": 1500 if tier == "quick" else 20000})
@@ -353,6 +354,36 @@ def run_systematic(spec, rec, lib):
     rec.sample({"systematic": "hostile char x position x length sweep", "chars": len(HOSTILE)})
 
 
+def run_named_extras(spec, rec, lib):
+    """the two entry shapes admit NO further member - whatever its name.  Every member name the library's own code mentions
+    (gen.vocab) is offered as a third / fourth member of otherwise perfect entries; first in a fresh process, then again after
+    every kind of unrelated activity - including calls made with each switchable option on - has happened in it"""
+    from ..gen import vocab
+
+    rng = random.Random(spec["seed"])
+    names = vocab.learn(lib.pkg_dir)["names"] + ["extra", "keyid", "alg", "comment"]
+    rec.count("member_names_learned_from_library_code", len(names))
+    raw = {"signature": GOOD["signature"](rng)}
+    pgp = {"signature": GOOD["signature"](rng), "other_headers": GOOD["other_headers"](rng)}
+    pgp3 = dict(pgp, see_also=GOOD["see_also"](rng))
+    for phase in ("fresh", "after-activity"):
+        if phase == "after-activity":
+            noise.provoke(lib, rng, spec.get("scratch"))
+            rec.count("switchable_options_exercised_by_noise", len(noise.OPTIONS_SEEN))
+        for n in names:
+            for base in (raw, pgp, pgp3):
+                for v in ("x", GOOD["signature"](rng), 1):
+                    e = dict(base, **{n: v})
+                    rec.count("entries_with_a_named_extra_member")
+                    for dotted, oracle, kind in ENTRY_FUNCS:
+                        judge(dotted, oracle, kind, e, rec, lib, "named-extra/" + phase)
+        # ... and the plain shapes are still what they were
+        for base in (raw, pgp, pgp3):
+            for dotted, oracle, kind in ENTRY_FUNCS:
+                judge(dotted, oracle, kind, dict(base), rec, lib, "plain/" + phase)
+    rec.sample({"named_extras": "%d names x 3 shapes x 3 values x 2 phases" % len(names)})
+
+
 def run_after_activity(spec, rec, lib):
     """the grammars are functions of the input alone: after keys have been loaded, used for signing and verified in this
     process, every other spelling of those very keys / signatures is still rejected"""
@@ -448,6 +479,8 @@ def run_shard(spec, rec, lib):
         return run_threads(spec, rec, lib)
     if spec["kind"] == "after_activity":
         return run_after_activity(spec, rec, lib)
+    if spec["kind"] == "named_extras":
+        return run_named_extras(spec, rec, lib)
     {"strings": run_strings, "entries": run_entries, "lists": run_lists, "systematic": run_systematic}[spec["kind"]](spec, rec, lib)
 
 
